@@ -279,6 +279,18 @@ def reseg(sc, how):
     return sc2
 
 
+def zero_timeouts(sc):
+    """Variant: disabled time-outs spelled 0 / 0.0 instead of None (the documentation names both spellings)."""
+    import copy
+    sc2 = copy.deepcopy(sc)
+    ck = sc2.setdefault('connect_kwargs', {})
+    if ck.get('ping_timeout') is None:
+        ck['ping_timeout'] = 0
+    if ck.get('close_timeout') is None:
+        ck['close_timeout'] = 0.0
+    return sc2
+
+
 def via_deflate(sc, how='rand'):
     """Variant of a scenario on a connection that negotiated permessage-deflate: every complete, plain data message of the server
     stream is sent compressed by the RFC 7692 peer (same number of fragments, Ping / Pong between the fragments if the original had
